@@ -134,13 +134,18 @@ Definition C40_model_ok (c : C40_case) : bool :=
 
 Definition hash_id28 (name : string) : Z := hash_id name mod 268435456.   (* XTypes 7.3.1.2.1.1: & 0x0FFFFFFF *)
 
-(* expected member ids by the XTypes rules: @hashid, @id, otherwise previous + 1 *)
+(* expected member ids: @hashid (28 bit), an explicit @id in every extensibility kind,
+   otherwise sequential: the automatic counter in Mutable structures, the member index
+   in Final/Appendable ones (both are "previous + 1" when no member is hashed) *)
 Fixpoint spec_ids_from (h : shead) (idx : nat) (next : Z) (ms : list mhead) : list Z :=
   match ms with
   | [] => []
   | m :: r =>
       let id := if m_hashid m then hash_id28 (member_name h idx m)
-                else match m_id m with Some i => i | None => next end in
+                else match m_id m with
+                     | Some i => i
+                     | None => match s_ext h with Mutable => next | _ => Z.of_nat idx end
+                     end in
       id :: spec_ids_from h (S idx) (if m_hashid m then next else id + 1) r
   end.
 
